@@ -1,14 +1,173 @@
 /-
   C03 specification side: the guard the property itself states ("fixed
   discount, charge and advance amounts are supplied at the currency's
-  precision") as decidable predicates over the model's documents.
+  precision") as decidable predicates over the model's documents, and the
+  property itself as ONE executable oracle over the presented figures of a
+  calculated document (`readdOk`).
+
+  `readdOk` is written from the statement of C03, not from the code: it only
+  reads the figures a calculated document presents (an `Out`), recomputes each
+  of them from the other presented figures with exact rational arithmetic and
+  "round half away from zero to the currency" (`Spec.roundTo`), and bounds the
+  number of decimals.  The same function judges the output of the real
+  `Invoice.Calculate` (driver request `C03 readd`, harness/props/c03) and is
+  proved to hold of `Calc.calculate exactOps` for every guarded document
+  (`Props.C03.currency_rule_readds`).
+
+  Core Lean only.
 -/
 import GoblVerif.Model.Calc
+import GoblVerif.Spec.C05
 
 namespace GoblVerif.Spec.C03
 open GoblVerif GoblVerif.Calc
 
 /-- sum of the integer values of a list of amounts (all at one exponent) -/
 def sumValues (xs : List Amount) : Int := (xs.map (·.value)).sum
+
+/-! ## the re-add oracle -/
+
+/-- exact sum of presented figures -/
+def qsum (xs : List Amount) : Rat := (xs.map Amount.toRat).sum
+
+/-- an optional figure counts as zero when it is not presented -/
+def q0 (a : Option Amount) : Rat := match a with | some x => x.toRat | none => 0
+
+/-- the figure has at most `e` decimals -/
+def atMost (e : Nat) (a : Amount) : Bool := decide (a.exp ≤ e)
+
+def atMostO (e : Nat) (a : Option Amount) : Bool := match a with | some x => atMost e x | none => true
+
+/-- `a` is `p` % of `base` rounded half away from zero to `c` decimals -/
+def isPctOf (c : Nat) (p : Pct) (base a : Amount) : Bool :=
+  decide (a.exp = c) && decide (a.value = Spec.roundTo c (base.toRat * p.amount.toRat))
+
+/-- total = sum − discounts + charges, no figure with more than `e` decimals
+    (lines and breakdown rows) -/
+def rowOk (e : Nat) (sum total : Amount) (ds cs : List LineAdj) : Bool :=
+  decide (total.toRat = sum.toRat - qsum (ds.map (·.amount)) + qsum (cs.map (·.amount))) &&
+  atMost e sum && atMost e total &&
+  ds.all (fun d => atMost e d.amount) && cs.all (fun d => atMost e d.amount)
+
+/-- decimals of the presented item price (0 when there is none) -/
+def priceExp (it : Option Item) : Nat :=
+  match it with
+  | some it => (match it.price with | some p => p.exp | none => 0)
+  | none => 0
+
+def subLineOk (e : Nat) (sl : SubLine) : Bool :=
+  match sl.sum, sl.total with
+  | some s, some t => rowOk e s t sl.discounts sl.charges
+  | _, _ => true
+
+/-- a line that presents a sum and a total: total = sum − discounts + charges,
+    also for every breakdown row, nothing finer than the currency or the item
+    price.  A line that presents no figures (no item, no price) has nothing to
+    re-add. -/
+def lineOk (c : Nat) (l : Line) : Bool :=
+  match l.sum, l.total with
+  | some s, some t =>
+    let e := max c (priceExp l.item)
+    rowOk e s t l.discounts l.charges && l.breakdown.all (subLineOk e)
+  | _, _ => true
+
+/-- the surcharge amount a rate group contributes to its category (a group
+    without a percentage presents none) -/
+def surOf (rt : RateTotal) : Option Amount :=
+  match rt.percent, rt.surcharge with
+  | some _, some (_, sa) => some sa
+  | _, _ => none
+
+/-- each rate amount (and surcharge amount) is its percentage of the presented
+    base rounded to the currency; base and amount carry no more decimals than
+    the currency -/
+def rateOk (c : Nat) (rt : RateTotal) : Bool :=
+  atMost c rt.base && atMost c rt.amount &&
+  (match rt.percent with
+   | none => true
+   | some p =>
+     isPctOf c p rt.base rt.amount &&
+     (match rt.surcharge with
+      | some (sp, sa) => isPctOf c sp rt.base sa
+      | none => true))
+
+/-- category amount = Σ rate amounts; category surcharge = Σ rate surcharges
+    (presented exactly when some rate carries one) -/
+def catOk (c : Nat) (ct : CatTotal) : Bool :=
+  ct.rates.all (rateOk c) &&
+  decide (ct.amount.toRat = qsum (ct.rates.map (·.amount))) && atMost c ct.amount &&
+  (match ct.surcharge with
+   | some s => decide (s.toRat = qsum (ct.rates.filterMap surOf)) && atMost c s
+   | none => (ct.rates.filterMap surOf).isEmpty)
+
+/-- what a category adds to the tax sum: amount + surcharge, negated when retained -/
+def signedQ (ct : CatTotal) : Rat :=
+  let v := ct.amount.toRat + q0 ct.surcharge
+  if ct.retained then -v else v
+
+/-- the tax summary: every category, tax sum = Σ ordinary − Σ retained, and the
+    document's `tax` figure is that sum.  Without a summary the tax is zero. -/
+def taxesOk (c : Nat) (t : Totals) : Bool :=
+  match t.taxes with
+  | none => decide (t.tax.value = 0)
+  | some x =>
+    x.cats.all (catOk c) &&
+    decide (x.sum.toRat = ((x.cats.map signedQ).sum : Rat)) && atMost c x.sum &&
+    decide (t.tax.toRat = x.sum.toRat)
+
+/-- an advance given as a percentage is that percentage of the presented total with tax -/
+def advanceOk (c : Nat) (twt : Amount) (a : Advance) : Bool :=
+  atMost c a.amount &&
+  (match a.percent with
+   | some p => isPctOf c p twt a.amount
+   | none => true)
+
+/-- a due date given as a (non-zero) percentage is that percentage of the presented payable amount -/
+def dueOk (c : Nat) (payable : Amount) (d : Due) : Bool :=
+  atMost c d.amount &&
+  (match d.percent with
+   | some p => if pctIsZero p then true else isPctOf c p payable d.amount
+   | none => true)
+
+/-- an optional total is the sum of its rows, and is presented exactly when there are rows -/
+def rowsSumOk (t : Option Amount) (rows : List Amount) : Bool :=
+  match t with
+  | some x => decide (x.toRat = qsum rows)
+  | none => rows.isEmpty
+
+def totalsOk (c : Nat) (out : Out) (t : Totals) : Bool :=
+  -- document sum = Σ line totals
+  decide (t.sum.toRat = qsum (out.lines.filterMap (·.total))) &&
+  -- discount / charge totals = Σ of their rows
+  rowsSumOk t.discount (out.discounts.map (·.amount)) &&
+  rowsSumOk t.charge (out.charges.map (·.amount)) &&
+  -- total = sum − discounts + charges − included tax
+  decide (t.total.toRat = t.sum.toRat - q0 t.discount + q0 t.charge - q0 t.taxIncluded) &&
+  -- rate amounts, category sums, tax sum
+  taxesOk c t &&
+  -- total with tax = total + tax
+  decide (t.totalWithTax.toRat = t.total.toRat + t.tax.toRat) &&
+  -- payable = total with tax + rounding
+  decide (t.payable.toRat = t.totalWithTax.toRat + q0 t.rounding) &&
+  -- advances = Σ advance rows; due = payable − advances
+  rowsSumOk t.advances (out.advances.map (·.amount)) &&
+  (match t.due with
+   | some x => decide (x.toRat = t.payable.toRat - q0 t.advances)
+   | none => t.advances.isNone) &&
+  out.advances.all (advanceOk c t.totalWithTax) &&
+  out.dues.all (dueOk c t.payable) &&
+  -- no figure has more decimals than the currency
+  atMost c t.sum && atMostO c t.discount && atMostO c t.charge && atMostO c t.taxIncluded &&
+  atMost c t.total && atMost c t.tax && atMost c t.totalWithTax && atMostO c t.rounding &&
+  atMost c t.payable && atMostO c t.advances && atMostO c t.due &&
+  out.discounts.all (fun x => atMost c x.amount) && out.charges.all (fun x => atMost c x.amount)
+
+/-- **C03 as one executable statement** over the figures a calculated document
+    presents; `c` is the number of decimals of the document currency. -/
+def readdOk (c : Nat) (out : Out) : Bool :=
+  out.lines.all (lineOk c) &&
+  (match out.totals with
+   | some t => totalsOk c out t
+   | none => true)
 
 end GoblVerif.Spec.C03
